@@ -336,3 +336,13 @@ def harnesses():
     hs += [h_any_length("list", "assign"), h_any_length("set", "assign"), h_any_length("list", "extend"), h_any_length("set", "update")]
     hs += [h_inferred_paths(), h_single_valued(), h_canary()]
     return hs
+
+
+def harnesses_thorough():
+    """thorough tier: initial contents of length 3 as well"""
+    INITIALS["three"] = ["e1", "e2", "e1"] if False else ["e1", "e2", "a"]
+    try:
+        hs = harnesses()
+    finally:
+        pass
+    return hs
